@@ -20,6 +20,11 @@ Oracle (property statement, clause by clause):
   idempotence : assemble(text(emitted)) == emitted
   listing   : (phase 2) texts that round-tripped alone, composed into listings of distinct lines sharing an operand
               text / a mnemonic, several listings per Assembler object: bytes == concatenation of the stand-alone bytes
+  sweep     : (phase 3) the text that is fed to the assembler is the text of THAT instruction: code buffers of 6
+              accepted instructions (neighbours related by generated relations: same opcode with other operand bytes /
+              one operand byte changed / other prefix, same opcode family, identical, unrelated) are disassembled by a
+              linear sweep keeping every decoded instruction alive; each line -- rendered at once, and rendered again
+              after the whole buffer was decoded -- and its lifted IL must equal those of the same bytes decoded alone
 Byte equality with the original is NOT required (redundant prefixes, don't-care bits).
 """
 
@@ -46,7 +51,11 @@ RULE = ("decoder-accepted encodings: every (prefix|none, opcode) pair x second b
         "(hex literals, names), assembled, re-decoded, executed against the original from one generated state, "
         "re-assembled. Non-trivial = the instruction has >= 1 operand; distinct = (prefix, mnemonic, operand-mode "
         "signature) i.e. distinct text shapes x prefix. Phase 2: listings of 6 distinct stand-alone-good texts related "
-        "by operand text / mnemonic, 8 listings per Assembler object; distinct = listing content.")
+        "by operand text / mnemonic, 8 listings per Assembler object; distinct = listing content. Phase 3: for every "
+        "(prefix|none, opcode) code buffers of 6 accepted instructions, each related to its predecessor by a generated "
+        "relation (same opcode + other operand bytes / exactly one operand byte changed / other prefix, same opcode "
+        "family, identical, unrelated), disassembled by a linear sweep at a generated base address; distinct = buffer "
+        "content.")
 
 REG_FIELDS = ("BA", "I", "X", "Y", "U", "S", "PC")
 POINTER_NAMES = ("BP", "PX", "PY")
@@ -339,20 +348,20 @@ def compare_behaviour(sa: Dict[str, Any], sb: Dict[str, Any], state: Dict[str, A
 # the verdict function (shared by exploration, replay and shrinking)
 # ----------------------------------------------------------------------------------------------------------
 
-def text_diff(ta: Sequence[TP.Tok], tb: Sequence[TP.Tok]) -> List[str]:
+def text_diff(ta: Sequence[TP.Tok], tb: Sequence[TP.Tok], verb: str = "reassembled as") -> List[str]:
     """One symptom per differing feature (mnemonic / operand count / each operand), so that a root cause that
     affects one operand slot is one bucket whatever happens in the other slot."""
     ma, sa, xa = signature(ta)
     mb, sb, xb = signature(tb)
     parts: List[str] = []
     if ma != mb:
-        parts.append(f"mnemonic {ma} reassembled as {mb}")
+        parts.append(f"mnemonic {ma} {verb} {mb}")
     if len(sa) != len(sb):
-        parts.append(f"operand count {len(sa)} reassembled as {len(sb)}")
+        parts.append(f"operand count {len(sa)} {verb} {len(sb)}")
     else:
         for i, (p, q) in enumerate(zip(sa, sb)):
             if p != q:
-                parts.append(f"op{i + 1} {p} reassembled as {q}")
+                parts.append(f"op{i + 1} {p} {verb} {q}")
             elif xa[i] != xb[i]:
                 parts.append(f"op{i + 1} {p} value changed")
     return parts or ["spacing/other"]
@@ -715,6 +724,281 @@ def _listing_shard(task: Tuple[List[List[List[Tuple[str, str]]]], float]) -> Rep
     return rep
 
 
+
+# ----------------------------------------------------------------------------------------------------------
+# phase 3: linear sweeps over code buffers (the text fed to the assembler is the text of THAT instruction)
+# ----------------------------------------------------------------------------------------------------------
+
+SWEEP_LEN = 6
+SWEEPS_PER_HEAD = {"quick": 8, "thorough": 48}       # buffers per (prefix|none, opcode)
+SWEEP_BASES = (0x01000, 0x00000, 0x2FFF4, 0x7ABCD, 0xE0100)
+SWEEP_RELATIONS = ("same-opcode-fresh-operands",) * 3 + ("same-opcode-one-operand-byte-changed",) * 3 + \
+                  ("same-opcode-other-prefix",) * 2 + ("same-family",) * 2 + ("identical",) + ("unrelated",) * 2
+SWEEP_MAX_CONSEQUENCES = 24      # assembler calls spent per shard on describing what a wrong line reassembles to
+_SWEEP_CONSEQ = [0]
+
+
+def decode_obj(data: bytes, addr: int) -> Any:
+    """The repository's decode + analyze (as textparse.tokens does it), returning the live instruction object."""
+    from sc62015.pysc62015.instr import decode, OPCODES
+    from sc62015.pysc62015.instr.opcodes import InvalidInstruction
+    from binaryninja import InstructionInfo
+
+    try:
+        ins = decode(bytes(data), addr, OPCODES)
+        if ins is None:
+            return None
+        ins.analyze(InstructionInfo(), addr)  # unfused PRE raises InvalidInstruction here
+    except (AssertionError, InvalidInstruction):
+        return None
+    return ins
+
+
+def render_toks(ins: Any) -> List[TP.Tok]:
+    return [(type(t).__name__[1:], str(t)) for t in ins.render()]
+
+
+def il_text(ins: Any, addr: int) -> str:
+    """Lifted IL of a decoded instruction as text (label object identities renamed by first occurrence)."""
+    from binja_test_mocks.mock_llil import MockLowLevelILFunction
+
+    il = MockLowLevelILFunction()
+    try:
+        ins.lift(il, addr)
+    except Exception as exc:  # noqa: BLE001 - what lifting raises is C04's subject; here only 'same as alone'
+        return f"EXC {type(exc).__name__}"
+    names: Dict[str, str] = {}
+
+    def ren(m: Any) -> str:
+        return names.setdefault(m.group(0), f"L{len(names)}")
+
+    return re.sub(r"0x[0-9a-f]{8,16}", ren, "\n".join(repr(n) for n in il.ils))
+
+
+def sweep_violations(codes: List[bytes], base: int) -> Tuple[List[Violation], List[str]]:
+    """codes = instructions that are each accepted alone (exact length); the buffer is their concatenation (+ NOPs)
+    placed at `base`.  (1) every instruction decoded alone (code + NOP padding, at the address it has in the buffer):
+    text, IL; objects dropped.  (2) linear sweep decode(buffer[offset:]) keeping every instruction object alive, each
+    rendered at once.  (3) after the whole buffer was decoded every kept object is rendered again and lifted.
+    The statement speaks of 'its rendered text': the line printed for an instruction must be the line of its own
+    bytes whatever follows it in the buffer and whatever was decoded before or after (fusion(): 'Bytes *after*
+    instr1 ... must not affect instr1'), otherwise the text handed to the assembler describes another instruction."""
+    labels: List[str] = []
+    case = {"kind": "sweep", "codes": [c.hex() for c in codes], "addr": base}
+    alone: List[Tuple[List[TP.Tok], str]] = []
+    off = 0
+    for c in codes:
+        a = (base + off) & 0xFFFFF
+        ins = decode_obj(c + G.NOP_PAD, a)
+        if ins is None or int(ins.length()) != len(c):
+            return [], ["sweep:skipped-not-accepted-alone"]
+        toks = render_toks(ins)
+        if excluded(toks):
+            return [], ["sweep:skipped-not-accepted-alone"]
+        alone.append((toks, il_text(ins, a)))
+        off += len(c)
+    ins = None
+    buf = b"".join(codes) + G.NOP_PAD
+    out: List[Violation] = []
+
+    def describe(j: int, off: int) -> str:
+        return f"instruction #{j} {codes[j].hex()} at +{off} of {b''.join(codes).hex()} @ {base:#07x}"
+
+    def consequence(ctx: Sequence[TP.Tok], own: Sequence[TP.Tok], a: int) -> str:
+        if _SWEEP_CONSEQ[0] >= SWEEP_MAX_CONSEQUENCES:
+            return ""
+        _SWEEP_CONSEQ[0] += 1
+        b_ctx, e_ctx = assemble_raw(mk_text(ctx), a)
+        b_own, e_own = assemble_raw(mk_text(own), a)
+        f = lambda b, e: b.hex() if b is not None else str(e)  # noqa: E731
+        return f"; the sweep's line assembles to {f(b_ctx, e_ctx)}, the instruction's own line to {f(b_own, e_own)}"
+
+    kept: List[Tuple[int, int, int, Any, Optional[List[TP.Tok]]]] = []
+    off = 0
+    for j, c in enumerate(codes):
+        a = (base + off) & 0xFFFFF
+        where = where_of(alone[j][0])
+        try:
+            ins = decode_obj(buf[off:], a)
+        except Exception as exc:  # noqa: BLE001
+            out.append(Violation("sweep", where, f"decoding in a linear sweep raises {type(exc).__name__} although the bytes are accepted alone",
+                                 case, f"{describe(j, off)}: {type(exc).__name__}: {str(exc)[:120]}"))
+            break
+        if ins is None:
+            out.append(Violation("sweep", where, "rejected in a linear sweep although accepted alone", case, describe(j, off)))
+            break
+        if int(ins.length()) != len(c):
+            out.append(Violation("sweep", where, "length in a linear sweep differs from the length decoded alone", case,
+                                 f"{describe(j, off)}: length {int(ins.length())} in the sweep, {len(c)} alone"))
+            break       # the sweep is mis-framed from here on
+        try:
+            imm: Optional[List[TP.Tok]] = render_toks(ins)
+        except Exception as exc:  # noqa: BLE001
+            imm = None
+            out.append(Violation("sweep", where, f"rendering in a linear sweep raises {type(exc).__name__}", case,
+                                 f"{describe(j, off)}: {str(exc)[:120]}"))
+        kept.append((j, off, a, ins, imm))
+        off += len(c)
+    ins = None
+    for j, off, a, obj, imm in kept:
+        own, own_il = alone[j]
+        where = where_of(own)
+        if imm is None:
+            continue
+        if imm != own:
+            for sym in text_diff(own, imm, "printed as"):
+                out.append(Violation("sweep", where, "line printed in a linear sweep differs from the line of the same bytes decoded alone: " + sym,
+                                     case, f"{describe(j, off)}: '{mk_text(imm)}' in the sweep, '{mk_text(own)}' alone"
+                                     + consequence(imm, own, a)))
+            continue
+        try:
+            late = render_toks(obj)
+        except Exception as exc:  # noqa: BLE001
+            out.append(Violation("sweep", where, f"rendering after the rest of the buffer was decoded raises {type(exc).__name__}", case,
+                                 f"{describe(j, off)}: {str(exc)[:120]}"))
+            continue
+        if late != own:
+            for sym in text_diff(own, late, "printed as"):
+                out.append(Violation("sweep", where, "line printed after the rest of the buffer was decoded differs from the line of the same "
+                                     "bytes decoded alone: " + sym,
+                                     case, f"{describe(j, off)}: '{mk_text(late)}' when rendered last, '{mk_text(own)}' alone"
+                                     + consequence(late, own, a)))
+            continue
+        il = il_text(obj, a)
+        if il != own_il:
+            out.append(Violation("sweep", where, "lifted IL of the instruction decoded in a linear sweep differs from the IL of the same bytes "
+                                 "decoded alone", case, f"{describe(j, off)} '{mk_text(own)}': {il[:200]!r} vs alone {own_il[:200]!r}"))
+    if len(kept) == len(codes):
+        labels.append("sweep:complete")
+    return out, labels
+
+
+def family_ops(op: int, tab: Dict[int, List[int]]) -> List[int]:
+    """Opcodes that share operand classes / table templates with `op` in the opcode map: the same row of eight, the
+    neighbouring row (op ^ 8) and the load/store mirror (op ^ 0x20)."""
+    cands = [(op & 0xF8) | k for k in range(8)] + [op ^ 0x08, op ^ 0x20]
+    return [o for o in cands if o != op and tab.get(o)]
+
+
+def sweep_instr(st: S.Stream, tab: Dict[int, List[int]], pre: Optional[int], op: int,
+                like: Optional[bytes] = None) -> Optional[Tuple[bytes, Optional[int], int]]:
+    """One accepted instruction (code, prefix, opcode) with head (pre, op): operand bytes fresh (boundary / named /
+    hash values, mode bytes from the decoder-legal ones), or -- `like` given -- the operand bytes of `like` with
+    exactly one of them changed.  Falls back to the unprefixed form where the prefixed one is not an accepted
+    instruction (unfused PRE)."""
+    valid = tab[op]
+    mode_byte = len(valid) < 256
+    for attempt in range(4):
+        if like is not None and attempt < 2:
+            body = like[1:] if like[0] in G.PRE_OPCODES else like
+            operands = bytearray(body[1:] + bytes(6))[:6]
+            n_op = max(1, len(body) - 1)
+            i = st.below(n_op)
+            old = operands[i]
+            for _ in range(4):
+                operands[i] = valid[st.below(len(valid))] if (i == 0 and mode_byte) else pick_byte(st.u32())
+                if operands[i] != old:
+                    break
+            b2, tail = operands[0], bytes(operands[1:])
+        else:
+            b2 = valid[st.below(len(valid))] if mode_byte else pick_byte(st.u32())
+            tail = bytes(pick_byte(st.u32()) for _ in range(5))
+        for p in ((pre, None) if pre is not None else (None,)):
+            data = G.head_bytes(p, op, b2) + tail
+            r = TP.tokens(data + G.NOP_PAD)
+            if r is not None and not excluded(r[0]):
+                return data[:r[1]], p, op
+    return None
+
+
+def compose_sweep(seed: int, tab: Dict[int, List[int]], ops: List[int], pi: int, op: int, k: int) -> Tuple[List[bytes], int, List[str]]:
+    """One code buffer: the head instruction (prefix PRES[pi], opcode op) first or after an unrelated one, then
+    instructions each related to its predecessor by a generated relation."""
+    st = S.Stream(seed, 77, op, pi, k)
+    labels: List[str] = []
+    codes: List[bytes] = []
+    cur = sweep_instr(st, tab, G.PRES[pi], op)
+    if cur is None:
+        return [], 0, ["sweep:head-not-accepted"]
+    if st.chance(1, 4):
+        lead = sweep_instr(st, tab, st.choice(G.PRES), st.choice(ops))
+        if lead is not None:
+            codes.append(lead[0])
+    codes.append(cur[0])
+    tries = 0
+    while len(codes) < SWEEP_LEN and tries < 4 * SWEEP_LEN:
+        tries += 1
+        code, pre, o = cur
+        rel = st.choice(SWEEP_RELATIONS)
+        nxt: Optional[Tuple[bytes, Optional[int], int]]
+        if rel == "same-opcode-fresh-operands":
+            nxt = sweep_instr(st, tab, pre, o)
+        elif rel == "same-opcode-one-operand-byte-changed":
+            nxt = sweep_instr(st, tab, pre, o, like=code)
+        elif rel == "same-opcode-other-prefix":
+            body = code[1:] if code[0] in G.PRE_OPCODES else code
+            p2 = st.choice([p for p in G.PRES if p != pre])
+            data = (bytes([p2]) if p2 is not None else b"") + body
+            r = TP.tokens(data + G.NOP_PAD)
+            nxt = (data[:r[1]], p2, o) if (r is not None and not excluded(r[0])) else None
+        elif rel == "same-family":
+            fam = family_ops(o, tab)
+            nxt = sweep_instr(st, tab, pre, st.choice(fam)) if fam else None
+        elif rel == "identical":
+            nxt = cur
+        else:
+            nxt = sweep_instr(st, tab, st.choice(G.PRES), st.choice(ops))
+        if nxt is None:
+            labels.append("sweep-rel:generation-failed")
+            continue
+        body_a = code[1:] if code[0] in G.PRE_OPCODES else code
+        body_b = nxt[0][1:] if nxt[0][0] in G.PRE_OPCODES else nxt[0]
+        labels.append("sweep-rel:" + rel)
+        if body_a[0] == body_b[0] and body_a != body_b:
+            labels.append("sweep-pair:same-opcode-byte-operands-differ")
+        codes.append(nxt[0])
+        cur = nxt
+    base = SWEEP_BASES[st.below(len(SWEEP_BASES))]
+    return codes, base, labels
+
+
+def _sweep_shard(task: Tuple[int, int, int, str, float]) -> Report:
+    shard, nshards, seed, tier, deadline = task
+    rep = Report()
+    tab = b2_table()
+    ops = [op for op in sorted(tab) if tab[op]]
+    _SWEEP_CONSEQ[0] = 0
+    same_op: set = set()
+    hi = 0
+    for op in ops:
+        for pi in range(len(G.PRES)):
+            hi += 1
+            if hi % nshards != shard:
+                continue
+            if time.time() > deadline:
+                if not rep.inconclusive:
+                    rep.inconclusive.append("time budget reached; some code buffers not swept (not a violation)")
+                break
+            for k in range(SWEEPS_PER_HEAD[tier]):
+                codes, base, labels = compose_sweep(seed, tab, ops, pi, op, k)
+                if not codes:
+                    rep.case(None, labels, None)
+                    continue
+                vs, vlabels = sweep_violations(codes, base)
+                for v in vs:
+                    rep.violate(v)
+                for a, b in zip(codes, codes[1:]):
+                    ba = a[1:] if a[0] in G.PRE_OPCODES else a
+                    bb = b[1:] if b[0] in G.PRE_OPCODES else b
+                    if ba[0] == bb[0] and ba != bb:
+                        same_op.add(ba[0])
+                rep.case("sweep:" + jhash([c.hex() for c in codes] + [base]),
+                         ["kind:sweep", f"sweep-base:{base:#07x}"] + labels + vlabels + (["result:sweep"] if vs else []),
+                         {"sweep": [c.hex() for c in codes], "addr": base} if rep.labels.get("kind:sweep", 0) % 200 == 1 else None)
+    rep.extra["_sweep_same_op"] = sorted(same_op)
+    return rep
+
+
 def _shard(task: Tuple[int, int, int, str, float]) -> Report:
     shard, nshards, seed, tier, deadline = task
     rep = Report()
@@ -783,6 +1067,13 @@ ASSUMPTIONS = [
     "decoder's text does not depend on the address, so neither may the assembler's acceptance of it",
     "listing: a line's bytes inside a listing (at .ORG 0x1000, near JP/CALL lines left out) must equal its stand-alone "
     "bytes whatever the other lines are and whatever the Assembler object assembled before",
+    "sweep: 'its rendered text' is the text of the instruction's own bytes -- the line the disassembler prints for an "
+    "instruction inside a code buffer (linear sweep, each instruction decoded from buffer[offset:], all decoded "
+    "instruction objects kept alive, rendered at once and again after the whole buffer was decoded) and its lifted IL "
+    "must equal those of the same bytes decoded alone with NOP padding at the same address (C01's statement: the "
+    "decode is independent of every byte beyond the length and of anything decoded earlier; fusion(): 'Bytes *after* "
+    "instr1 that fail to decode must not affect instr1'); otherwise the line handed to the assembler describes "
+    "another instruction than the one in the buffer. Only instructions that are accepted alone are put into buffers",
     "byte equality with the original encoding is not required (redundant prefix, don't-care bits)",
     "behaviour is compared on the Python emulator only, one step, with both encodings placed so that they END at "
     "the same address (fall-through PC, relative targets and pushed return addresses are then comparable); it is "
@@ -817,6 +1108,10 @@ def run(ctx: Ctx) -> Report:
     b2_table()  # computed once before forking
     nshards = 16 if ctx.quick else 64
     deadline = ctx.t0 + TIME_BUDGET[ctx.tier]
+    nproc = 16
+    # phase 3 (linear sweeps over code buffers) runs first: it is cheap (~1 CPU-minute in quick), and a time budget hit in
+    # the assembler-bound phases must not drop the class; its reports are merged last
+    sweeps = ctx.pmap(_sweep_shard, [(i, nproc, ctx.seed, ctx.tier, deadline) for i in range(nproc)])
     reports = ctx.pmap(_shard, [(i, nshards, ctx.seed, ctx.tier, deadline) for i in range(nshards)])
     # phase 2: listings composed from ALL texts that round-tripped alone (shard order, then generation order)
     pool: List[List[Any]] = []
@@ -828,11 +1123,15 @@ def run(ctx: Ctx) -> Report:
                 pool.append(e)
     listings = compose_listings(pool, ctx.seed, ctx.tier)
     histories = [listings[i:i + LISTINGS_PER_ASSEMBLER] for i in range(0, len(listings), LISTINGS_PER_ASSEMBLER)]
-    nproc = 16
     tasks = [([h for j, h in enumerate(histories) if j % nproc == w], deadline) for w in range(nproc)]
     reports += ctx.pmap(_listing_shard, [t for t in tasks if t[0]])
+    same_op: set = set()
+    for r in sweeps:
+        same_op.update(r.extra.pop("_sweep_same_op", []))
+    reports += sweeps
     rep = merge_reports(reports)
     rep.extra["listing_pool_distinct_texts"] = len(pool)
+    rep.extra["sweep_opcodes_followed_by_same_opcode_with_other_operands"] = len(same_op)
     for k in [k for k in rep.extra if k.startswith("_")]:
         del rep.extra[k]
     rep.rule = RULE
@@ -847,6 +1146,9 @@ def run(ctx: Ctx) -> Report:
 def replay(ctx: Ctx, case: Dict[str, Any]) -> List[Violation]:
     if case.get("kind") == "listing":
         return listing_violations([[tuple(x) for x in l] for l in case["history"]])
+    if case.get("kind") == "sweep":
+        _SWEEP_CONSEQ[0] = 0
+        return sweep_violations([bytes.fromhex(c) for c in case["codes"]], case["addr"])[0]
     code = bytes.fromhex(case["code"])
     vs, _, _ = verdict(code, case.get("state"), recheck=True, org=case.get("org"))
     return vs
@@ -892,6 +1194,23 @@ def shrink_listing(v: Violation) -> Violation:
     return best
 
 
+def shrink_sweep(v: Violation) -> Violation:
+    """Drop instructions of the buffer as long as the fingerprint stays (bounded: 60 s)."""
+    key = v.key()
+    t0 = time.time()
+    best = v
+    codes = [bytes.fromhex(c) for c in v.case["codes"]]
+    i = 0
+    while i < len(codes) and len(codes) > 1 and time.time() - t0 < 60:
+        trial = codes[:i] + codes[i + 1:]
+        got = _same(sweep_violations(trial, v.case["addr"])[0], key)
+        if got is not None:
+            best, codes = got, trial
+        else:
+            i += 1
+    return best
+
+
 def shrink(ctx: Ctx, v: Violation) -> Violation:
     """Field-wise simplification keeping the fingerprint: drop the state when it is irrelevant, zero operand
     bytes, zero registers.  Bounded (a few hundred verdict evaluations at most, <= 60 s)."""
@@ -901,6 +1220,8 @@ def shrink(ctx: Ctx, v: Violation) -> Violation:
     case = dict(v.case)
     if case.get("kind") == "listing":
         return shrink_listing(v)
+    if case.get("kind") == "sweep":
+        return shrink_sweep(v)
 
     def attempt(code: bytes, state: Optional[Dict[str, Any]]) -> Optional[Violation]:
         if time.time() - t0 > 60:
